@@ -18,7 +18,9 @@ from . import msm, recurrence, weights
 LEVEL_TEXT = ('Static analysis; decides ONLY structural necessary conditions of completeness whose breakage makes honest proofs fail in configurations the '
               'test-suite never runs (aggregation >= 8; capacity > aggregation; mixed capacities in a batch): the closed-form aggregation recurrence '
               '(polynomial normal form) and the one-origin rule for precomputed table, padding and vector lengths. It does NOT decide completeness itself.'
-              " Also runs C06's guard rules (an honest prover that is refused yields no accepted proof).")
+              " Also runs C06's guard rules (an honest prover that is refused yields no accepted proof), the rule that the largest member sizes a batch "
+              "whatever the order, and the rule that the verifier core rejects on lengths, decoding failures and the gate only (no test of its own on "
+              "the content of a statement, such as the capacity of its parameters).")
 ASSUMPTIONS = ['induction recorded in DESIGN.md: T_i = z^(2*2^i), S_i = sum_{j=1..2^i} z^(2j)']
 RULE_TEXT = 'one obligation per structural clause; non-trivial = decided from a normal form or argument term'
 
